@@ -65,16 +65,21 @@ def c18_2(c: Ctx) -> None:
         c.fail(u, f'removal from {U(recv)[:60]}', 'the temporary handler is removed from something other than self.handlers[key]', node=rms[0])
         return
     keyexpr = recv.slice
+    rm_stmt = q.stmt_of(rms[0])
+    tr = next((t for t in q.ancestors_of(rms[0]) if isinstance(t, ast.Try) and q.lexically_in(rms[0], t, 'finalbody')), None)
+    block = tr.finalbody if tr is not None else (q.block_of(rm_stmt) or [rm_stmt])
     for desc, val, want in PATTERN_KINDS:
-        ai = AbsInt()
-        env = {tparam: val}
-        if isinstance(keyexpr, ast.Name):
-            defs = [n for n in own_nodes(u.node) if isinstance(n, (ast.Assign, ast.AnnAssign)) and n.value is not None and U(n.targets[0] if isinstance(n, ast.Assign) else n.target) == keyexpr.id]
-            if not defs:
-                raise AnalysisError(f'expect: key variable {keyexpr.id} has no definition')
-            got = ai.ev(defs[-1].value, env)
-        else:
-            got = ai.ev(keyexpr, env)
+        seen: list[object] = []
+
+        def on_stmt(st, env, seen=seen):
+            if st is rm_stmt:
+                seen.append(ai.ev(keyexpr, env))
+
+        ai = AbsInt(on_stmt=on_stmt)
+        ai.run(block, {tparam: val})
+        if not seen:
+            raise AnalysisError(f'expect: the removal statement was not reached when evaluating the cleanup block for pattern kind {desc}')
+        got = seen[-1]
         reg_key = on_key_for(c, val)
         if got is UNKNOWN or reg_key is UNKNOWN:
             raise AnalysisError(f'expect: removal key undecided for pattern kind {desc}')
